@@ -5,3 +5,5 @@ pub mod tree;
 mod node;
 mod pool;
 mod entity;
+#[cfg(ishape_rust_itree_verif)]
+mod verif;
